@@ -12,7 +12,7 @@ import vlib
 from harness.speccommon import *
 
 LEVEL_TEXT = ('Lean 4 theorems about an executable list model of Spectrum whose comparison operators and scalar formulas (crop guards and drop '
-              'tests, integrate\'s keep test, trim\'s tolerance test and refusal, pad\'s sample counts, bin mid-points/end edges and the '
+              'tests, integrate\'s keep test, trim\'s tolerance test and refusal and the slice bounds it keeps (Gen.trimSliceStart/Stop; trim_slice_is_code), append\'s overlap test (Gen.appendRefusesAt; append_guard_is_code, append_guard_refuses_touching, append_single_refused), pad\'s sample counts, bin mid-points/end edges and the '
               'trapezoid/Simpson terms) are regenerated from radiometry.py (Gen/SpectrumOps.lean): the invariant (strictly increasing wavelengths, '
               'one value per wavelength) is preserved by crop/trim/pad/append/resample and by every history, also when an operation is refused; '
               'crop keeps exactly the closed range and is covariant under a change of unit (crop_scale_covariant); trim keeps first-to-last '
@@ -25,7 +25,7 @@ LEVEL_NOTE = ('partial: non-negativity of Simpson bins for integer-dtype centres
 TECHNIQUE = 'Lean 4 proof (induction over lists and over operation histories) about a hand model + per-step differential correspondence at ℚ'
 GEN = ['SpectrumOps', 'Units']
 OPS = ['C15']
-RULE = ('streams: histories, integrate, setvalue (sample/bin, assign `value`/`wave`, sample/bin again on the same object), bin (zero-raw-sum stream in three sub-classes: dark spectrum, centres outside the data, sample points of the rule on zeros of a non-dark spectrum [known finding]; own/other/default unit, integer-dtype centres int16/32/64 up to the top of the range), unit (sample/resample across units), extremes (number scales, histories > 32 ops in search/thorough). histories of 5..12 (quick) / 5..30 (thorough) operations drawn from crop/trim/pad/append/resample with parameters relative to the '
+RULE = ('streams: badarg (every refusal on an ARGUMENT outside the documented options: append of a non-Spectrum, integrate(method=?), pad(mode=?), pad(sampling=left/right/list) i.e. the three raises of _sampling, bin(ends=?) for both rules, bin(interp_method=?): must be ValueError with the spectrum bit-identical afterwards), histories, integrate, setvalue (sample/bin, assign `value`/`wave`, sample/bin again on the same object), bin (zero-raw-sum stream in three sub-classes: dark spectrum, centres outside the data, sample points of the rule on zeros of a non-dark spectrum [known finding]; own/other/default unit, integer-dtype centres int16/32/64 up to the top of the range), unit (sample/resample across units), extremes (number scales, histories > 32 ops in search/thorough). histories of 5..12 (quick) / 5..30 (thorough) operations drawn from crop/trim/pad/append/resample with parameters relative to the '
         'current range (inside, at, and outside it; refusals included: non-increasing grids, overlapping appends, wrong lengths, '
         'non-positive pads, tol>=1) on dyadic spectra of 2..10 samples (one in five stored as int64); integrate with random bounds, linear/additive/exactness probes; '
         'bin with 2..7 centres (uniform and non-uniform), trapz/simps, symmetric/inside, preserve_power on/off, scalar and pair '
@@ -41,7 +41,7 @@ UNPROVEN = [            'integrate theorems (linearity, additivity at a sample, 
             'Simpson bins: exactness for linear spectra on uniform centres is proved for symmetric ends, float centres, no power preservation (bin_simps_exact_linear_uniform); ends="inside" (quarter points), integer-dtype centres and preserve_power: oracle only',
             'integrate(method="simps") (scipy.integrate.simpson is not modelled)',
             ]
-ASSUMPTIONS = ['preserve_power classes are told apart by the un-normalised bins of the same call (a second call with preserve_power=False on an equal spectrum; its sum is compared with the model\'s raw sum): raw sum exactly zero and integral zero => all-zero bins demanded; raw sum exactly zero and integral non-zero => known finding; otherwise the bins must sum to the integral',
+ASSUMPTIONS = ['badarg stream: spectra of >= 3 samples only — pad(sampling="left"/"right") on a TWO-sample spectrum passes _sampling\'s length test, _sampling(wave[0]) of a scalar returns None and pad fails with an accidental TypeError (spectrum unchanged); not generated, no clause covers it; a string other than min/left/right as sampling is np.isscalar and likewise ends in a TypeError', 'preserve_power classes are told apart by the un-normalised bins of the same call (a second call with preserve_power=False on an equal spectrum; its sum is compared with the model\'s raw sum): raw sum exactly zero and integral zero => all-zero bins demanded; raw sum exactly zero and integral non-zero => known finding; otherwise the bins must sum to the integral',
                'append() ignores the wavelength unit of the appended spectrum (its numbers are appended as they are and keep the caller\'s unit label): generated (tag append:other-unit), model and oracle follow the code — the result is well-formed, which is all the property claims; reported as an observation',
                'bin(interp_method="simps", preserve_power=True) raises ValueError (from scipy.integrate.simpson) when no data sample lies inside the span of the centres; such calls are outside the modelled scope',
                'spectra are 1-D with finite data; histories run under every unit label (nm/um/angstrom/m; also at x2^-30 and x2^10 number scales); sample, resample and bin are also run with abscissae in another unit or the default nm (the code converts a copy)',
